@@ -34,6 +34,23 @@ and parse_section () =       (* after 'S' / 'B' *)
     | t -> failwith ("bad token in section: " ^ t) in
   go ()
 
+(* which variant of the library the model is to follow (see Dag/DagRecordModel.v):
+   argv[1] = 1: other_cont edges are counted by the accumulation; argv[2] = 1: the report adds
+   the end edges of contracted sections *)
+let oc = Array.length Sys.argv > 1 && Sys.argv.(1) = "1"
+let fe = Array.length Sys.argv > 2 && Sys.argv.(2) = "1"
+
+(* the lines of the .stat report that are totals of the DAG *)
+let pr_stat b (n : node) =
+  let i = ninfo n in
+  let c = i.i_nodes in
+  let e = stat_edges fe n in
+  let ints = BinInt.Z.add (BinInt.Z.add c.nc_create c.nc_wait) (BinInt.Z.add c.nc_other c.nc_end) in
+  let dagnodes = BinInt.Z.add (BinInt.Z.add ints (BinInt.Z.add c.nc_wait c.nc_create)) (Zio.z_of_int 1) in
+  Buffer.add_string b (Printf.sprintf " ; stat work=%s tinf=%s cr=%s wt=%s en=%s dagnodes=%s mat=%s sedges=%s,%s,%s,%s,%s"
+    (sz (stat_work n)) (sz i.i_tinf) (sz c.nc_create) (sz c.nc_wait) (sz c.nc_end) (sz dagnodes) (sz i.i_cur)
+    (sz e.ec_end) (sz e.ec_create) (sz e.ec_ccont) (sz e.ec_wcont) (sz e.ec_ocont))
+
 let pr_info b (i : info) =
   let n = i.i_nodes and e = i.i_edges in
   Buffer.add_string b (Printf.sprintf "rc=0 t1=%s tinf=%s nodes=%s,%s,%s,%s edges=%s,%s,%s,%s,%s cur=%s"
@@ -65,9 +82,10 @@ let () =
       let b = Buffer.create 1024 in
       Stdlib.List.iteri (fun k st ->
         if k > 0 then Buffer.add_string b " | ";
-        let n = record (summ_setting st) [] t in
+        let n = record oc (summ_setting st) [] t in
         pr_info b (ninfo n);
-        Buffer.add_string b (Printf.sprintf " mat=%s" (sz (materialized n)))) sets;
+        Buffer.add_string b (Printf.sprintf " mat=%s" (sz (materialized n)));
+        pr_stat b n) sets;
       let rows = dag_of t in
       Buffer.add_string b (Printf.sprintf " # wf=%d nonneg=%d dag work=%s longest=%s nodes=%s,%s,%s,%s edges=%s,%s,%s,%s,%s"
         (if wf CChild t then 1 else 0) (if nonnegb t then 1 else 0)
@@ -76,10 +94,10 @@ let () =
         (sz (edge_count EEnd rows)) (sz (edge_count ECreate rows)) (sz (edge_count ECreateCont rows))
         (sz (edge_count EWaitCont rows)) (sz (edge_count EOtherCont rows)));
       Buffer.add_string b " # none ";
-      pr_info b (root_info summ_none t);
+      pr_info b (root_info oc summ_none t);
       Stdlib.List.iter (fun salt ->
         Buffer.add_string b " # choice ";
-        let n = record (summ_choice (choice salt)) [] t in
+        let n = record oc (summ_choice (choice salt)) [] t in
         pr_info b (ninfo n);
         Buffer.add_string b (Printf.sprintf " mat=%s" (sz (materialized n)))) [1; 2];
       print_endline (Buffer.contents b)
